@@ -116,6 +116,8 @@ def forced_refs(m, d, year, times):
         for t in times:
             x = base + TD(off)
             out.append(dt.datetime(x.year, x.month, x.day, *t).isoformat())
+    x = base
+    out.append(dt.datetime(x.year, x.month, x.day, 0, 0, 0, 250000).isoformat())
     return out
 
 
@@ -136,8 +138,8 @@ def forced_enum(quick):
                         yield {'kind': 'md', 'm': m, 'd': d, 'layout': layout, 'ref': r, 'carrier': CARRIERS[i % 6]}
         base = dt.datetime(2019, 12, 26, 0, 0, 0)
         for off in range(14):
-            for t in ((0, 0, 0), (18, 30, 0)):
-                r = (base + TD(days=off)).replace(hour=t[0], minute=t[1], second=t[2]).isoformat()
+            for t in ((0, 0, 0, 0), (18, 30, 0, 0), (9, 15, 30, 654321)):
+                r = (base + TD(days=off)).replace(hour=t[0], minute=t[1], second=t[2], microsecond=t[3]).isoformat()
                 for wd in range(7):
                     i += 1
                     yield {'kind': 'wd', 'wd': wd, 'cap': bool(i % 2), 'ref': r, 'carrier': CARRIERS[i % 6]}
